@@ -145,6 +145,13 @@ func Run(g *walk.Graph, mk func() Impl, nPaths, maxLen, k int, seed int64, outPa
 		for i, e := range path {
 			digests, outs := make([]string, k), make([]string, k)
 			for r := range reps {
+				// every second replica is a node that first executes the event speculatively on a branch it then abandons
+				// (optimistic execution / a rejected proposal): what a block does must not depend on that
+				// (not for what an operator does to the process outside block execution: registering a plan, genesis)
+				ty := absx.Str(e.E["type"])
+				if sf, ok := reps[r].(interface{ SpecFork() walk.Impl }); ok && r%2 == 1 && ty != "RegisterPlan" && ty != "InitGenesis" && ty != "ExportImport" {
+					sf.SpecFork().Exec(e.E)
+				}
 				okr, resp, errs := reps[r].Exec(e.E)
 				digests[r] = h(reps[r].Digest())
 				outs[r] = h(reps[r].Raw() + "|" + absx.Canon(resp) + "|" + errs + "|" + map[bool]string{true: "ok", false: "fail"}[okr])
